@@ -71,3 +71,8 @@ claim("C17",
       "mounted-topic typestate computed by provenance slicing with interprocedural parameter meet (static and interface call sites), provenance of the trim receiver and of lookup arguments, who-may-call inside the mount-point helpers (go/ssa)",
       "Decides that every topic or filter reaching the replicated state, the message log, the distributor, the hand-off or the writer is mount-qualified on all sources, that PrefixMountPoint is never applied to an already mounted name, that delivery strips the prefix with the mount point of the very recipient being written to, that client-id lookups are scoped by the asking session's mount point (call sites and predicate), and that the helpers concatenate / slice verbatim. Necessary conditions of tenant isolation.",
       "Not decided: value-level identity trim(prefix(t)) == t, mount points containing '/', contents of the audit stream; inter-node and admin RPC requests are trusted to carry mounted names.")
+
+claim("C20",
+      "must-hold lockset dataflow over every function of the module with requires-lock summaries over static callers and closure creation sites, receiver-mutation summaries, critical-section structure, provenance of returned guarded containers (go/ssa)",
+      "Decides monitor discipline on every path: each of the guarded members (recomputed per run; eleven today) is accessed only under its monitor's lock, exclusively for writes — including writes made through a guarded pointer by a mutating method; locks are released on every path and never re-acquired by a callee; no check-then-act across a lock gap without re-check; no live guarded map/slice leaves its monitor; plus the atomic winner-takes-callback protocol of the in-flight table. Necessary conditions of race freedom; no interleaving is executed.",
+      "Not decided: gotomic internals, logical races outside lock discipline, channel protocols; third-party objects (gorilla websocket.Conn) are contracts.")
